@@ -164,8 +164,10 @@ class World:
         led = self.ledger(parent_id)
         total = ref.subsidy(parent.height + 1) + sum(ref.tx_fee(t, led) for t in rtxs)
         k2 = rng.choice(self.keys)[1]
-        kind = rng.choice(["zero-extra", "zero-first", "split", "zero-same-key", "under-claim", "two-zeros"])
+        kind = rng.choice(["zero-extra", "zero-first", "split", "zero-same-key", "under-claim", "two-zeros", "no-outputs"])
         self.counters["odd_rewards"] = self.counters.get("odd_rewards", 0) + 1
+        if kind == "no-outputs":
+            return []           # the reward claims nothing at all (its output list is empty)
         if kind == "zero-extra":
             return [(total, miner_pk), (0, k2)]
         if kind == "zero-first":
